@@ -23,6 +23,9 @@ later value and the documentation is silent), and the nested target is an ordina
 whose write transforms the value). A guarded bind `(:= y (if c v))` / `(:= y (!if c v))` / `(:= y (ewma a v))` may
 occur as a value under the same discipline (its result register is the register of `y`; its two operands are
 hazard-free against each other, as at statement level; non-vacuity: `guardedNestedSrc_*` in `C01Sim.lean`).
+A *bare* operator expression that is such a value expression may be a statement of a body (`(+ (:= x 1) 2)`,
+`(> a b)`): the compiler emits its code and does not use the result temporary, the source semantics evaluates it for
+its nested binds and its faults and drops the value (non-vacuity: `bareStmtSrc_*`, `bareFaultSrc_*` in `C01Sim.lean`).
 On such programs the source semantics is unambiguous; the check compares it with
 what the real datapath computes, and the theorem proves that the compiled code computes it. -/
 
